@@ -188,6 +188,7 @@ PROPS["C15"] = conv_entry(
     "and (to_be|to_le|from_be|from_le, type, value); non-trivial = slice length differs from BYTES and is not a multiple of 8 bytes, or the slice is rejected",
     lambda e: (e["op"].endswith("slice") and (len(e["a"][0]["v"]) != e["w"] // 8)) or any_flag(e))
 PROPS["C15"]["nightly"] = True
+PROPS_C16_MC = True
 PROPS["C16"] = conv_entry(
     "constants of every matrix type (BITS, BYTES, MIN, MAX, ZERO, ONE..TEN, NEG_ONE..NEG_TEN, Default) and the seven alias pairs; cross-digit-type casts at equal width; "
     "narrow/wide commutation of add, sub, mul, div, rem, pow, shl, cmp, decimal print and parse over 16 (narrow, wide) configuration pairs; "
@@ -295,6 +296,7 @@ RADIX_Q = [alg("MC_RadixAlgs.tla", "MC_RadixAlgs_4_2.cfg"), alg("MC_RadixAlgs.tl
 RADIX_T = RADIX_Q + [alg("MC_RadixAlgs.tla", "MC_RadixAlgs_8_1.cfg")]
 PROPS["C10"]["mc"] = {"quick": list(RADIX_Q), "thorough": list(RADIX_T)}
 PROPS["C11"]["mc"] = {"quick": [RADIX_Q[0]], "thorough": [RADIX_T[0], RADIX_T[2]]}
+PROPS["C12"]["mc"] = {"quick": [RADIX_Q[0]], "thorough": [RADIX_T[0], RADIX_T[2]]}
 PROPS["C18"]["mc"] = {"quick": [alg("NumAlgs.tla", "NumAlgs_fixed.cfg"), alg("NumAlgs.tla", "NumAlgs_old.cfg", expect_violation="NoOverflow")],
                       "thorough": [alg("NumAlgs.tla", "NumAlgs_fixed.cfg"), alg("NumAlgs.tla", "NumAlgs_fixed9.cfg", workers=10), alg("NumAlgs.tla", "NumAlgs_old.cfg", expect_violation="NoOverflow")]}
 PROPS["C09"]["mc"] = {"quick": [alg("CastAlgs.tla", "CastAlgs_%d.cfg" % i, workers=2) for i in (2, 4, 9, 11)],
@@ -314,6 +316,7 @@ PROPS["C17"]["mc"] = {"quick": [{"dir": "mc", "module": "MC_Machine.tla", "cfg":
                       "thorough": [{"dir": "mc", "module": "MC_Machine.tla", "cfg": c, "workers": 10, "xmx": "8g", "timeout": 3000} for c in ("MC_Machine_u4.cfg", "MC_Machine_i4.cfg", "MC_Machine_u4r.cfg", "MC_Machine_i6.cfg")]}
 
 # model-checking configurations every check runs: the L1 big-number layer underlies every oracle
+PROPS["C16"]["mc"] = {"quick": [L2MC], "thorough": [L2MC, dict(L2MC, cfg="MC_L2_b16.cfg"), dict(L2MC, cfg="MC_L2_b2.cfg")]}
 COMMON_MC = {
     "quick": [{"dir": "mc", "module": "MC_Fast.tla", "cfg": "MC_Fast_b4.cfg", "workers": 4}],
     "thorough": [{"dir": "mc", "module": "MC_Fast.tla", "cfg": "MC_Fast_b4.cfg", "workers": 4},
